@@ -433,6 +433,10 @@ pub enum Fixed {
     /// v5: a peer that repeats a PUBREL while the first is being handled must not gain Receive Maximum slots:
     /// with `rm` publishes really in flight the next one is still refused with 0x93
     DupRelThenExceed { role: Role, rm: u16 },
+    /// v5: no Receive Maximum was announced to the peer (client: CONNECT without the property; server: max_receive 0), so
+    /// the peer may have 65 535 publishes outstanding; `cfg_max` is the endpoint's own concurrency setting.  A peer with
+    /// `n` unacknowledged publishes is never refused, and all of them are handled once handlers finish
+    Unannounced { role: Role, cfg_max: u16, n: u16 },
 }
 
 fn ffail(role: Role, rule: &str, detail: String) -> Failure {
@@ -507,6 +511,58 @@ pub async fn run_fixed(fx: Fixed) -> Result<CaseInfo, Failure> {
             }
             eut.finish().await;
             Ok(CaseInfo::nontrivial(&fx).label("duplicate-id-then-full-window"))
+        }
+        Fixed::Unannounced { role, cfg_max, n } => {
+            let mut cfg = Cfg::default();
+            cfg.v5.max_receive = cfg_max;
+            cfg.v5.connect.receive_max = None;
+            let eut = Eut::start(role, &cfg).await;
+            let hs = eut.handshake(&cfg).await;
+            // what was really announced (server: CONNACK; client: its own CONNECT)
+            let announced = hs.iter().find_map(|w| match &w.pkt {
+                P5::ConnAck(a) => Some(a.receive_max),
+                P5::Connect(c) => Some(c.receive_max),
+                _ => None,
+            });
+            if announced != Some(None) {
+                eut.finish().await;
+                return Ok(CaseInfo::trivial().label("receive-maximum-announced"));
+            }
+            let app = eut.app().clone();
+            app.default_open.set(false);
+            let publish = |pid: u16| P5::Publish(Box::new(s5::Publish5 { qos: 1, pid: Some(pid), topic: "t/a".into(), payload_len: 1, ..Default::default() }));
+            for i in 0..n {
+                eut.peer_send(&publish(1 + i), &[7]);
+            }
+            eut.settle().await;
+            let refused = |eut: &Eut| eut.packets().0.iter().find_map(|w| if let P5::Disconnect(d) = &w.pkt { Some(d.reason) } else { None });
+            let mut rounds = 0;
+            loop {
+                if let Some(d) = refused(&eut) {
+                    return Err(Failure::new(
+                        "conforming-peer-refused",
+                        format!("C12/{}/conforming-peer-refused-0x93", role.name()),
+                        format!("no Receive Maximum was announced (65 535 applies), the endpoint's own max_receive is {cfg_max}; the peer sent {n} QoS 1 publishes and was disconnected with reason {d:#x} after {} had reached a handler; stops {:?}", app.pub_enters().len(), app.stops()),
+                    ));
+                }
+                if !app.stops().is_empty() || eut.done().is_some() {
+                    return Err(ffail(role, "conforming-peer-connection-ended", format!("{n} publishes against an unannounced Receive Maximum: stops {:?} done {:?}", app.stops(), eut.done())));
+                }
+                let acks = eut.packets().0.iter().filter(|w| matches!(&w.pkt, P5::PubAck(a) if a.reason == 0)).count();
+                if acks == usize::from(n) {
+                    break;
+                }
+                rounds += 1;
+                if rounds > usize::from(n) + 4 {
+                    return Err(ffail(role, "publish-never-handled", format!("{acks} of {n} publishes acknowledged, {} handled, with all gates opened {rounds} times; unread input {}", app.pub_enters().len(), eut.peer().unread())));
+                }
+                app.open_all();
+                app.default_open.set(false);
+                eut.settle().await;
+            }
+            let overlap = app.max_active_pub.get();
+            eut.finish().await;
+            Ok(CaseInfo::nontrivial(&fx).label(if overlap as u64 >= u64::from(n) { "unannounced-receive-maximum-all-concurrent" } else { "unannounced-receive-maximum-paced" }))
         }
         Fixed::DupRelThenExceed { role, rm } => {
             let mut cfg = Cfg::default();
@@ -627,6 +683,10 @@ pub fn fixed_cases() -> Vec<Fixed> {
     for rm in 2..5u16 {
         out.push(Fixed::DupRelThenExceed { role: Role::V5Server, rm });
     }
+    for (cfg_max, n) in [(1u16, 6u16), (2, 8), (16, 20), (16, 40)] {
+        out.push(Fixed::Unannounced { role: Role::V5Client, cfg_max, n });
+    }
+    out.push(Fixed::Unannounced { role: Role::V5Server, cfg_max: 0, n: 40 });
     for role in [Role::V3Server, Role::V5Server] {
         for limit in [60u16, 100, 200] {
             for a in [limit - 2, limit - 1, limit, limit + 1, limit / 2, limit / 2 + 1] {
